@@ -355,6 +355,37 @@ def h_history(cx, sp, muts):
         compare(cx, 'after_%d_%s' % (i, m), got, ref)
 
 
+def h_rejected(cx, sp):
+    """assignments that the object rejects (wrong length / count / invalid knot vector) leave every view as it was,
+    also when a later valid edit follows"""
+    obj = _build(cx, sp)
+    before = views(obj)
+    pd = obj.pdimension
+    n = _npts(obj)
+    tries = []
+    if pd == 1:
+        tries.append(lambda: setattr(obj, 'knotvector', list(obj.knotvector)[:-1]))
+        tries.append(lambda: setattr(obj, 'knotvector', list(reversed(obj.knotvector))))
+        tries.append(lambda: setattr(obj, 'ctrlpts', cx.points('X', obj.degree, obj.dimension)))          # fewer than degree + 1
+    else:
+        tries.append(lambda: setattr(obj, 'knotvector_u', list(obj.knotvector_u)[:-1]))
+        tries.append(lambda: setattr(obj, 'knotvector_v', list(reversed(obj.knotvector_v))))
+        # (a control-point list whose length does not match the sizes is NOT validated by surfaces / volumes: it fails
+        #  half-way with an IndexError and leaves the object unusable - not an edit the property speaks about, not used here)
+    tries.append(lambda: setattr(obj, 'delta', 2))
+    for k, t in enumerate(tries):
+        try:
+            t()
+            accepted = True
+        except Exception:
+            accepted = False
+        if accepted:
+            return            # this implementation takes the input: nothing is claimed about what follows
+        compare(cx, 'after_rejected_%d' % k, views(obj), before)
+    MUTATORS['move_one_point'][0](cx, obj, 'r')
+    compare(cx, 'valid_edit_after_rejections', views(obj), views(fresh(obj)))
+
+
 def h_deepcopy(cx, sp, mut, edit_copy):
     obj = _build(cx, sp)
     v0 = views(obj)
@@ -489,6 +520,39 @@ def h_surface_container(cx, scenario):
         agg(ms, tess)
         m_ctrlpts_prop(cx, ms[0], 'e')
         compare(cx, 'after_element_edit', agg(ms, tess), agg(fresh_container(list(ms)), tess))
+    elif sc in ('add_third', 'same_sample_size', 'reset'):
+        # two tessellated elements, then the container cache alone is dropped and everything is read again
+        ms.add(s2)
+        agg(ms, tess)
+        elems = [s1, s2]
+        if sc == 'add_third':
+            s3 = geo.make_surface(cx, 1, 1, cx.consts(sp['kvs'][0]), cx.consts(sp['kvs'][1]), 2, 2, cx.points('T', 4, 3), None, normalize_kv=True)
+            ms.add(s3)
+            elems.append(s3)
+        elif sc == 'same_sample_size':
+            ms.sample_size = 3
+        else:
+            ms.reset()
+        got = agg(ms, tess)
+        if tess:
+            got['vertex_ids'] = [v.id for v in ms.vertices]
+            cx.check('vertex_ids_consecutive', got['vertex_ids'] == list(range(len(got['vertex_ids']))), str(got['vertex_ids'])[:120])
+            del got['vertex_ids']
+        compare(cx, 'after_' + sc, got, agg(fresh_container(elems), tess))
+    elif sc == 'deepcopy':
+        ms.add(s2)
+        a0 = agg(ms, tess)
+        cp = copy.deepcopy(ms)
+        compare(cx, 'copy_equals_source', agg(cp, tess), a0)
+        tt = cx.reals('tt', 3)
+        moved = geo.M('operations').translate(ms, tt, inplace=False)
+        ref = fresh_container([s1, s2])
+        geo.M('operations').translate(ref, tt, inplace=True)
+        compare(cx, 'translated_copy', agg(moved, tess), agg(ref, tess))
+        compare(cx, 'source_after_translated_copy', agg(ms, tess), a0)
+        cp.sample_size = 4
+        agg(cp, tess)
+        compare(cx, 'source_after_copy_edit', agg(ms, tess), a0)
     elif sc == 'failed_batch_add':
         # a batch add whose later element is rejected: the accepted ones must be reflected in every aggregate
         bad = geo.make_surface(cx, 1, 1, cx.consts(sp['kvs'][0]), cx.consts(sp['kvs'][1]), 2, 2, cx.points('B', 4, 2), None, normalize_kv=True)
@@ -533,10 +597,13 @@ def instances(tier):
         for m in ('move_one_point', 'translate_inplace', 'reverse', 'scale_inplace', 'insert_knot', 'transpose', 'flip'):
             if applicable(m, sp):
                 out.append(inst('%s bbox [%s]' % (spec_name(sp), m), h_bbox, timeout=1200, sp=sp, mut=m))
+    for sp in specs[:6]:
+        out.append(inst('%s rejected assignments' % spec_name(sp), h_rejected, timeout=1200, sp=sp))
     for rational in (False, True):
         for sc in ('add', 'edit_element', 'sample_size', 'add_list', 'deepcopy', 'failed_batch_add'):
             out.append(inst('container %s %s' % ('rat' if rational else 'nonrat', sc), h_container, timeout=900, rational=rational, scenario=sc))
-    for sc in ('add', 'edit_element', 'sample_size', 'failed_batch_add', 'add+tessellation', 'edit_element+tessellation', 'sample_size+tessellation', 'failed_batch_add+tessellation'):
+    for sc in ('add', 'edit_element', 'sample_size', 'failed_batch_add', 'deepcopy', 'add+tessellation', 'edit_element+tessellation', 'sample_size+tessellation', 'failed_batch_add+tessellation',
+               'add_third+tessellation', 'same_sample_size+tessellation', 'reset+tessellation', 'deepcopy+tessellation'):
         out.append(inst('surface container %s' % sc, h_surface_container, timeout=900, scenario=sc))
     if not quick:
         pair_muts = ['ctrlpts=', 'weights=', 'ctrlptsw=', 'knotvector=', 'sample_size=', 'insert_knot', 'remove_knot', 'refine_knotvector',
